@@ -1011,4 +1011,81 @@ theorem encodeBatchA_refines {ty : BatchType} {stmts : List (BatchStmt × Nat)} 
       simp only [encodeBody, h1, encodeBatch, hn', if_false, h2']
       simp
 
+/-! ### `view` is injective (so equal frames mean equal requests) -/
+
+theorem int32_toInt_inj {a b : Int32} (h : a.toInt = b.toInt) : a = b := Int32.toInt_inj.mp h
+theorem int64_toInt_inj {a b : Int64} (h : a.toInt = b.toInt) : a = b := Int64.toInt_inj.mp h
+
+theorem optMap_inj {α β : Type} {f : α → β} (hf : ∀ a b, f a = f b → a = b) {x y : Option α}
+    (h : x.map f = y.map f) : x = y := by
+  cases x <;> cases y <;> simp at h ⊢
+  exact hf _ _ h
+
+theorem viewParams_inj {p q : Params} (h : viewParams p = viewParams q) : p = q := by
+  cases p; cases q
+  simp only [viewParams, ParamsView.mk.injEq] at h
+  obtain ⟨h1, h2, h3, h4, h5, h6, h7⟩ := h
+  have h4' := optMap_inj (fun a b => int32_toInt_inj) h4
+  have h7' := optMap_inj (fun a b => int64_toInt_inj) h7
+  simp_all
+
+theorem viewStmt_inj {a b : BatchStmt} (h : viewStmt a = viewStmt b) : a = b := by
+  cases a <;> cases b <;> simp_all [viewStmt]
+
+theorem eventSpecName_inj {a b : EventType} (h : eventSpecName a = eventSpecName b) : a = b := by
+  cases a <;> cases b <;> first | rfl | (exfalso; revert h; decide +kernel)
+
+theorem map_inj' {α β : Type} {f : α → β} (hf : ∀ a b, f a = f b → a = b) : ∀ {xs ys : List α},
+    xs.map f = ys.map f → xs = ys
+  | [], [], _ => rfl
+  | [], _ :: _, h => by simp at h
+  | _ :: _, [], h => by simp at h
+  | x :: xs, y :: ys, h => by
+    simp only [List.map_cons, List.cons.injEq] at h
+    rw [hf _ _ h.1, map_inj' hf h.2]
+
+theorem zip_inj {α β : Type} : ∀ {xs xs' : List α} {ys ys' : List β}, xs.length = ys.length → xs'.length = ys'.length →
+    xs.zip ys = xs'.zip ys' → xs = xs' ∧ ys = ys'
+  | [], xs', [], ys', _, h2, h => by
+    cases xs' <;> cases ys' <;> simp_all
+  | [], _, _ :: _, _, h1, _, _ => by simp at h1
+  | _ :: _, _, [], _, h1, _, _ => by simp at h1
+  | x :: xs, xs', y :: ys, ys', h1, h2, h => by
+    cases xs' with
+    | nil => simp at h
+    | cons x' xs' =>
+      cases ys' with
+      | nil => simp at h2
+      | cons y' ys' =>
+        simp only [List.zip_cons_cons, List.cons.injEq, Prod.mk.injEq] at h
+        have := zip_inj (by simpa using h1) (by simpa using h2) h.2
+        simp [h.1.1, h.1.2, this.1, this.2]
+
+/-- One value list per statement (what a successful BATCH encoding implies). -/
+def batchShapeOk : Req → Prop
+  | .batch _ ss vs _ _ _ => ss.length = vs.length
+  | _ => True
+
+theorem view_inj {r₁ r₂ : Req} (h₁ : batchShapeOk r₁) (h₂ : batchShapeOk r₂) (h : view r₁ = view r₂) : r₁ = r₂ := by
+  cases r₁ <;> cases r₂ <;> simp only [view, ReqView.startup.injEq, ReqView.query.injEq, ReqView.prepare.injEq,
+    ReqView.execute.injEq, ReqView.register.injEq, ReqView.batch.injEq, ReqView.authResponse.injEq, reduceCtorEq] at h
+  · simp [h]
+  · rfl
+  · simp [h.1, viewParams_inj h.2]
+  · simp [h]
+  · simp [h.1, h.2.1, viewParams_inj h.2.2]
+  · simp [map_inj' (fun a b => eventSpecName_inj) h]
+  · rename_i ty ss vs c sc ts ty' ss' vs' c' sc' ts'
+    obtain ⟨e1, e2, e3, e4, e5⟩ := h
+    have hz := zip_inj (by simpa [batchShapeOk] using h₁) (by simpa [batchShapeOk] using h₂) e2
+    have hs := map_inj' (fun a b => viewStmt_inj) hz.1
+    have ht := optMap_inj (fun a b => int64_toInt_inj) e5
+    simp [e1, hs, hz.2, e3, e4, ht]
+  · simp [h]
+
+theorem encodeBody_batchShape {r : Req} {b : List UInt8} (h : encodeBody r = .ok b) : batchShapeOk r := by
+  have hr := (rdBody_encodeBody h).1
+  cases r <;> simp only [batchShapeOk]
+  exact hr.2.1
+
 end ScyllaVerif.Proofs.Request
